@@ -13,7 +13,7 @@ from ..selftest import Mutant
 
 ID = "C52"
 TECHNIQUE = "CFG ordering and guard rules (K1/K2/K5) on Reconfigure.apply: fetch before destroy_repository, tip and tags captured before destroy_branch, uncommitted-changes check before any destructive step (ast)"
-FLOOR = 12
+FLOOR = 14
 RC = "breezy/reconfigure.py"
 EXPLANATION = """
 P1 (K1/K2) revisions: controldir.destroy_repository() comes after every fetch in apply() and is the last destructive
